@@ -35,7 +35,7 @@ LeafCases ==
   \cup { Case("bool", TRUE, o, a, b) : o \in Ops \ {"in", "has"},
             a \in BoolVals \cup {NilV}, b \in BoolVals \cup {NilV} }
   \cup { Case("to1", FALSE, o, a, b) : o \in {"=", "!=", "nope"}, a \in To1Vals, b \in To1Vals }
-  \cup { Case("to1", FALSE, "in", a, b) : a \in To1Vals, b \in ToNVals }
+  \cup { Case("to1", FALSE, "in", a, b) : a \in To1Vals, b \in ToNVals \cup {Ids(<<"e">>), Ids(<<"e", "a">>), Ids(<<"b", "e">>)} }
   \cup { Case("toN", FALSE, o, a, b) : o \in Ops \ {"in", "has"}, a \in ToNVals, b \in ToNVals }
   \cup { Case("toN", FALSE, "has", a, b) : a \in ToNVals, b \in {Ids(<<"a">>), Ids(<<"c">>)} }
 
